@@ -820,8 +820,7 @@ theorem go_cons (np : NetPol) (other dst : KPeer) (res : ConnSet) (r : NPRule) (
       (np.ruleSelectsPeer r.peers other >>= fun sel =>
         if !sel then go np other dst res rest
         else ruleConnections r.ports (some dst) >>= fun rc =>
-          if (res.union rc).allowAll then pure (res.union rc)
-          else go np other dst (res.union rc) rest) := rfl
+          go np other dst (res.union rc) rest) := rfl
 end NetPol.allowedConns
 
 
@@ -899,46 +898,28 @@ theorem NetPol.allowedConns_go_spec (np : NetPol) (other dst : KPeer) (a b : Int
             (inRange x ∧ Spec.npRuleAllows np r (other.toEnd a) (dst.toEnd b) pr x = true) := by
           intro pr x
           rw [hden, Spec.npRuleAllows_eq, hS, Bool.true_and]
-        show (∀ c, (if (res.union rc).allowAll = true then _ else _) = _ → _) ∧
-          (∀ e, (if (res.union rc).allowAll = true then _ else _) = _ → _)
-        cases hall : (res.union rc).allowAll
-        · -- carry on with the union
-          simp only [Bool.false_eq_true, if_false]
-          obtain ⟨ih1, ih2⟩ := ih hv' (res.union rc) hcan'
+        -- carry on with the union (every rule is examined)
+        show (∀ c, NetPol.allowedConns.go np other dst (res.union rc) rest = _ → _) ∧
+          (∀ e, NetPol.allowedConns.go np other dst (res.union rc) rest = _ → _)
+        obtain ⟨ih1, ih2⟩ := ih hv' (res.union rc) hcan'
+        constructor
+        · intro c h
+          obtain ⟨hcw, hcden⟩ := ih1 c h
+          refine ⟨hcw, fun pr x => ?_⟩
+          rw [hcden, hden', hrule]
+          simp only [List.mem_cons, exists_eq_or_imp]
           constructor
-          · intro c h
-            obtain ⟨hcw, hcden⟩ := ih1 c h
-            refine ⟨hcw, fun pr x => ?_⟩
-            rw [hcden, hden', hrule]
-            simp only [List.mem_cons, exists_eq_or_imp]
-            constructor
-            · rintro ((h | ⟨h1, h2⟩) | ⟨h1, h2⟩)
-              · exact Or.inl h
-              · exact Or.inr ⟨h1, Or.inl h2⟩
-              · exact Or.inr ⟨h1, Or.inr h2⟩
-            · rintro (h | ⟨h1, h2 | h2⟩)
-              · exact Or.inl (Or.inl h)
-              · exact Or.inl (Or.inr ⟨h1, h2⟩)
-              · exact Or.inr ⟨h1, h2⟩
-          · intro e h
-            obtain ⟨h1, h2, r', hr', h3⟩ := ih2 e h
-            exact ⟨h1, h2, r', List.mem_cons_of_mem _ hr', h3⟩
-        · -- early exit: the union is All Connections
-          simp only [if_true]
-          constructor
-          · intro c h
-            cases h
-            refine ⟨hcan', fun pr x => ?_⟩
-            rw [ConnSet.den_of_allowAll hw' hall]
-            constructor
-            · intro hx
-              rcases (hden' pr x).mp ((ConnSet.den_of_allowAll hw' hall pr x).mpr hx) with h | h
-              · exact Or.inl h
-              · exact Or.inr ⟨hx, r, List.mem_cons_self .., ((hrule pr x).mp h).2⟩
-            · rintro (h | ⟨h, _⟩)
-              · exact hres.den_inRange h
-              · exact h
-          · intro e h; cases h
+          · rintro ((h | ⟨h1, h2⟩) | ⟨h1, h2⟩)
+            · exact Or.inl h
+            · exact Or.inr ⟨h1, Or.inl h2⟩
+            · exact Or.inr ⟨h1, Or.inr h2⟩
+          · rintro (h | ⟨h1, h2 | h2⟩)
+            · exact Or.inl (Or.inl h)
+            · exact Or.inl (Or.inr ⟨h1, h2⟩)
+            · exact Or.inr ⟨h1, h2⟩
+        · intro e h
+          obtain ⟨h1, h2, r', hr', h3⟩ := ih2 e h
+          exact ⟨h1, h2, r', List.mem_cons_of_mem _ hr', h3⟩
 
 
 /-- Theorem 5, success: whenever `allowedConns` returns a set, it is canonical (hence `WF`) and
@@ -1245,10 +1226,12 @@ example : np2.egressAllowedConns (.ip [⟨ipIn, ipIn⟩]) =
       .ok ⟨false, some ⟨[⟨443, 443⟩], [], []⟩, none, none⟩ ∧
     np2.egressAllowedConns (.ip [⟨ipExcept, ipExcept⟩]) = .ok (ConnSet.mk' false) ∧
     np2.egressAllowedConns (.pod client (some nsDefault)) = .ok (ConnSet.mk' false) := by decide
-/-- the early exit: the first rule allows everything, the second (with a named port towards an
-IP) is never evaluated, and the specification agrees (a named port matches nothing on an IP) -/
+/-- no early exit: the first rule allows everything, the second (with a named port towards an
+IP) is evaluated all the same and fails the call, in either order of the two rules -/
 example : ({ np with egress := [⟨[], []⟩, ⟨[], [⟨none, .name "dns"⟩]⟩] } : NetPol).egressAllowedConns
-    (.ip [⟨ipIn, ipIn⟩]) = .ok (ConnSet.mk' true) := by decide
+      (.ip [⟨ipIn, ipIn⟩]) = .error .namedPortOnIP ∧
+    ({ np with egress := [⟨[], [⟨none, .name "dns"⟩]⟩, ⟨[], []⟩] } : NetPol).egressAllowedConns
+      (.ip [⟨ipIn, ipIn⟩]) = .error .namedPortOnIP := by decide
 
 /-! Theorem 6 -/
 example : np.selects web .ingress = true ∧ Spec.npSelects np web .ingress = true ∧
